@@ -411,6 +411,7 @@ class World:
             self.loop = VLoop(self.clock)
         self._pending = []
         self.inconclusive = False
+        self._intr_done = False
         if cfg["attempt_timeout"] is not None:
             if cfg["real_executor"]:
                 _install_real_executor()
@@ -801,7 +802,20 @@ class World:
         t0 = self.rel()
         self.fault("sleeper")
         over = self.cfg["overshoot"]
+        if self._intr_done and "intr" in over:
+            over = [x for x in over if x != "intr"]   # at most one interruption per execution
         o = over[self.ch.choose("over", len(over), self.cfg["over_free"])] if len(over) > 1 else over[0]
+        if o == "intr":
+            self._intr_done = True
+            # a sleeper built on select() / Event.wait(): a signal handler cuts the wait short
+            # after part of it has passed and the sleeper reports InterruptedError
+            try:
+                E.advance(max(float(s) / 2.0, 0.0))
+            except (TypeError, ValueError):
+                pass
+            exc = InterruptedError("interrupted system call")
+            self.trace.append(("sleep", which, ticks(s), t0, self.rel(), self.reg(exc)))
+            raise exc
         if isinstance(o, str):  # sleeper raising a cancellation-type exception
             exc = FAULT_TYPES[o]()
             self.trace.append(("sleep", which, ticks(s), t0, t0, self.reg(exc)))
